@@ -7,11 +7,18 @@ equality (`LawfulRequired`), the trait's provided bodies of `full`, `union`, `is
 emptiness of the intersection and inclusion.  Instantiated for the finite bit set (the custom
 implementation the harness runs through the real `resolve`) and for `Range` (which overrides them).
 (b) "resolve gives the guarantees C01–C05 with such an implementation exactly as with Range": the
-solver model never mentions `Range`; every solver theorem (C02, C03, C06, C12, C13 …) is stated for an
-arbitrary `LawfulVersionSet`, and `lawful_ofRequired` turns a `LawfulRequired` implementation into
-one.  So this clause holds to exactly the extent C01–C05 are proved (see their files).
+solver model never mentions `Range`; every solver theorem is stated for an arbitrary `LawfulVersionSet`
+(some with `CanonicalEmpty`), and `lawful_ofRequired` / `canonicalEmpty_ofRequired` turn a
+`LawfulRequired` implementation into one.  `C17_solver_guarantees` spells the clause out: for ANY
+implementation of the five required methods that is lawful with canonical equality, `resolve` returns
+only valid solutions all of whose packages are reachable from the root (C01, C04), reports `NoSolution`
+only when no solution exists (C02), never panics (debug assertions included) and never returns `Failure`
+(C05), and over a finite registry returns within a bounded number of calls (C05).
 -/
 import PubgrubProofs.VSetInstances
+import PubgrubProofs.CanonInstances
+import PubgrubProofs.Decides
+import PubgrubProofs.ReachabilityC04
 
 set_option linter.unusedSectionVars false
 set_option warn.classDefReducibility false
@@ -52,5 +59,52 @@ def C17_bitset_lawful (n : Nat) : @LawfulVersionSet (BitSet n) (Fin n) (BitSet.i
 /-- `Range` over a dense order without end points is one too (with its overriding sweeps) -/
 def C17_range_lawful {V : Type} [LinearOrder V] [DenselyOrdered V] [NoMinOrder V] [NoMaxOrder V]
     [Nonempty V] : LawfulVersionSet (Range V) V := Range.lawful
+
+/-- (b) spelled out: the guarantees C01–C05 for any lawful implementation of the five required methods -/
+theorem C17_solver_guarantees {P M Pr E : Type} [DecidableEq P] [DecidableEq V] [LE Pr] [DecidableLE Pr]
+    (empty : S) (singleton : V → S) (complement : S → S)
+    (intersection : S → S → S) (contains : S → V → Bool)
+    (R : @LawfulRequired S V (VersionSet.ofRequired empty singleton complement intersection contains)) :
+    letI := VersionSet.ofRequired empty singleton complement intersection contains
+    letI := lawful_ofRequired empty singleton complement intersection contains R
+    ∀ (W : World P S V M) (_hW : W.SetsValid) (root : P) (rv : V),
+      -- C01, C04
+      (∀ debug fuel (s : SolverState P S V M Pr) sel,
+        ReachableWB (E := E) W debug fuel root rv (s, .solution sel) →
+          IsSolution W root rv (fun p => SmallMap.get sel p) ∧
+          ∀ p v, SmallMap.get sel p = some v → ReachableFrom W root (fun q => SmallMap.get sel q) p) ∧
+      -- C02
+      (∀ debug fuel (s : SolverState P S V M Pr) tree,
+        Reachable (E := E) W debug fuel root rv (s, .noSolution tree) →
+          ¬ ∃ σ : P → Option V, IsSolution W root rv σ) ∧
+      -- C05: no panic, no Failure
+      (∀ debug fuel (s : SolverState P S V M Pr) site,
+        ¬ Reachable (E := E) W debug fuel root rv (s, .fault (.panic site))) ∧
+      (∀ debug fuel (s : SolverState P S V M Pr) msg,
+        ¬ ReachableWB (E := E) W debug fuel root rv (s, .failure msg)) ∧
+      -- C05 + C02: returns within a bounded number of calls, with the answer the registry decides
+      (∀ (_fw : FiniteWorld W root rv) (debug : Bool),
+        ∃ N fuel0 : Nat, ∀ fuel, fuel0 ≤ fuel → ∀ as : List (Answer P S V M Pr E), N ≤ as.length →
+          WellBehavedRun W debug fuel root rv as →
+          ∃ k, k ≤ N ∧
+            (Solver.after (Solver.start debug fuel root rv) (as.take k)).2.isFinal = true ∧
+            (∀ j, j < k → (Solver.after (Solver.start debug fuel root rv) (as.take j)).2.isFinal = false) ∧
+            DecidedBy W root rv (Solver.after (Solver.start debug fuel root rv) (as.take k)).2) := by
+  letI := VersionSet.ofRequired empty singleton complement intersection contains
+  letI := lawful_ofRequired empty singleton complement intersection contains R
+  haveI := canonicalEmpty_ofRequired empty singleton complement intersection contains R
+  intro W hW root rv
+  refine ⟨?_, ?_, ?_, ?_, ?_⟩
+  · intro debug fuel s sel h
+    exact ⟨(solution_valid W hW debug fuel root rv s sel h).1,
+      fun p v hp => solution_reachable W hW debug fuel root rv s sel h p v hp⟩
+  · intro debug fuel s tree h
+    exact noSolution_sound W hW debug fuel root rv s tree h
+  · intro debug fuel s site
+    exact no_panic W hW debug fuel root rv s site
+  · intro debug fuel s msg h
+    exact failure_only_out_of_set W hW debug fuel root rv s msg h
+  · intro fw debug
+    exact resolve_returns W hW root rv fw debug
 
 end Pubgrub.C17
